@@ -146,7 +146,7 @@ static void gen(plan_t *p, rng_t *r)
                 op_fault(o, FAULT(FC_ACCEPT, outs[rng_below(r, 4)], 0));
                 if (rng_chance(r, 1, 2)) { o = plan_op(p, 0, "accept", 2, 0L, (long)slot); }
             }
-            if (rng_chance(r, 1, 10)) { plan_op(p, 0, "dup", 2, (long)slot, 3L); plan_op(p, 0, "del", 1, rng_chance(r, 1, 2) ? (long)slot : 3L); if (rng_chance(r, 1, 2)) plan_op(p, 0, "recv", 1, 3L); }
+            if (rng_chance(r, 1, 10)) { o = plan_op(p, 0, "dup", 2, (long)slot, 3L); if (rng_chance(r, 1, 6)) op_fault(o, FAULT(FC_OPEN, FO_EMFILE, 0)); plan_op(p, 0, "del", 1, rng_chance(r, 1, 2) ? (long)slot : 3L); if (rng_chance(r, 1, 2)) plan_op(p, 0, "recv", 1, 3L); }
             for (int k = 0; k < nrecv; k++) {
                 o = plan_op(p, 0, "recv", 1, (long)slot);
                 gen_faults(o, r, FC_READ, rng_chance(r, 1, 2) ? 4 : 10, srv_nbio, hard);
@@ -182,7 +182,7 @@ static void gen(plan_t *p, rng_t *r)
         if (rng_chance(r, 1, 10)) plan_op(p, c, "checkio", 1, 0L);
         for (int k = 0; k < nsend; k++) {
             int slot = 0;
-            if (rng_chance(r, 1, 12)) { plan_op(p, c, "dup", 2, 0L, 1L); slot = 1; }
+            if (rng_chance(r, 1, 12)) { o = plan_op(p, c, "dup", 2, 0L, 1L); if (rng_chance(r, 1, 6)) op_fault(o, FAULT(FC_OPEN, FO_EMFILE, 0)); slot = 1; }
             o = plan_op(p, c, "send", 1, (long)slot);
             make_payload(o, c * 40 + k * 7, rng_chance(r, 1, 30) ? 0 : (size_t)payload_sizes[rng_below(r, NPAY)]);
             gen_faults(o, r, FC_WRITE, rng_chance(r, 1, 2) ? 3 : 8, nb, hard);
@@ -368,6 +368,7 @@ static void do_op(int t, op_t *o)
         sock[t][d] = spif_socket_dup(so);
         tr_printf("t%d dup slot%d -> slot%d fd=%d", t, s, d, sock[t][d] ? sock[t][d]->fd : -1);
         if (sock[t][d]) probe_hit("dup_ok");
+        if (sock[t][d] && sock[t][d]->fd < 0 && so->fd >= 0) probe_hit("dup_without_descriptor");      /* dup() itself failed: the copy has no descriptor */
     } else if (!strcmp(o->kind, "del")) {
         if (!so) return;
         spif_socket_del(so);
